@@ -1274,16 +1274,21 @@ class Pool(BasePool[C]):
         while (conn := block.try_steal()) is not None:
             conns.append(conn)
 
-        while not block.count_waiters() and block.pending_conns:
-            # try_acquire, because it can get stolen
-            if c := await block.try_acquire():
-                conns.append(c)
-
-        if conns:
-            await asyncio.gather(
-                *(self._discard_conn(block, conn) for conn in conns),
-                return_exceptions=True
-            )
+        try:
+            while not block.count_waiters() and block.pending_conns:
+                # try_acquire, because it can get stolen
+                if c := await block.try_acquire():
+                    conns.append(c)
+        finally:
+            # If a pending connection fails, the wait above is aborted with
+            # the connect error. The connections taken out of the stack so
+            # far must still be closed, or they would stay in the block
+            # forever: never idle, never in use, counted against the capacity.
+            if conns:
+                await asyncio.gather(
+                    *(self._discard_conn(block, conn) for conn in conns),
+                    return_exceptions=True
+                )
 
     async def prune_all_connections(self) -> None:
         # Brutally close all connections. This is used by HA failover.
